@@ -246,6 +246,49 @@ def _defaults(f, fname, lean_prefix):
     return out
 
 
+
+def _aim_test(t):
+    """a test on `aim_weights` -> Lean Bool term"""
+    if isinstance(t, ast.Compare) and isinstance(t.left, ast.Name) and t.left.id == "aim_weights" and len(t.ops) == 1 \
+            and isinstance(t.comparators[0], ast.Constant) and t.comparators[0].value is None and isinstance(t.ops[0], (ast.Is, ast.IsNot)):
+        return "pyIsNone aim_weights" if isinstance(t.ops[0], ast.Is) else "!(pyIsNone aim_weights)"
+    if isinstance(t, ast.Call) and isinstance(t.func, ast.Name) and len(t.args) >= 1 and isinstance(t.args[0], ast.Name) and t.args[0].id == "aim_weights" and not t.keywords:
+        if t.func.id == "callable" and len(t.args) == 1:
+            return "pyAimCallable aim_weights"
+        if t.func.id == "isinstance" and len(t.args) == 2 and ast.unparse(t.args[1]) == "np.ndarray":
+            return "pyAimIsArray aim_weights"
+    if isinstance(t, ast.UnaryOp) and isinstance(t.op, ast.Not):
+        return f"!({_aim_test(t.operand)})"
+    if isinstance(t, ast.BoolOp):
+        op = " && " if isinstance(t.op, ast.And) else " || "
+        return "(" + op.join(_aim_test(v) for v in t.values) + ")"
+    _fail(t, "unsupported test on aim_weights")
+
+
+def _aim_default(pre, fname, lean_prefix):
+    """round 6: the statements of the prelude that (re)bind `aim_weights`, as a definition: which object reaches `cls(...)`"""
+    hits = [s for s in pre if any(isinstance(n, ast.Name) and n.id == "aim_weights" and isinstance(n.ctx, ast.Store) for n in ast.walk(s))]
+    lines, order = [], None
+    expr = "pyAimKeep aim_weights"
+    if len(hits) > 1:
+        _fail(hits[1], "aim_weights is re-bound more than once before the loop")
+    if hits:
+        s = hits[0]
+        if not (isinstance(s, ast.If) and not s.orelse and len(s.body) == 1 and isinstance(s.body[0], ast.Assign) and len(s.body[0].targets) == 1
+                and isinstance(s.body[0].targets[0], ast.Name) and s.body[0].targets[0].id == "aim_weights"):
+            _fail(s, "unsupported re-binding of aim_weights")
+        v = s.body[0].value
+        if not (isinstance(v, ast.Call) and isinstance(v.func, ast.Name) and v.func.id == "BeckeWeights" and not v.args and len(v.keywords) == 1
+                and v.keywords[0].arg == "order" and isinstance(v.keywords[0].value, ast.Constant) and type(v.keywords[0].value.value) is int):
+            _fail(v, "the default aim weights are not BeckeWeights(order=<int>)")
+        order = v.keywords[0].value.value
+        lines.append(f"  -- if {ast.unparse(s.test)}: aim_weights = {ast.unparse(v)}")
+        expr = f"if {_aim_test(s.test)} then becke {order} else pyAimKeep aim_weights"
+    return [f"/-- `MolGrid.{fname}`: the aim weights that reach `cls(atnums, <grids>, aim_weights, store=store)`; `becke k` is",
+            "`BeckeWeights(order=k)`, `none` the argument `None`. -/",
+            f"def {lean_prefix}_aim {{P K : Type}} (becke : Nat → AimArg P K) (aim_weights : Option (AimArg P K)) : AimArg P K :="] + lines + ["  " + expr, ""]
+
+
 def _one_method(tree, fname, lean_prefix):
     """-> (lean lines) for one constructor."""
     f = _classmethod(tree, fname)
@@ -262,6 +305,7 @@ def _one_method(tree, fname, lean_prefix):
     out += _defaults(f, fname, lean_prefix)
     out += _strs(f"{lean_prefix}_prelude", f"`MolGrid.{fname}`: the statements before the per-atom loop (exception messages dropped).",
                  [_unparse_short(s) for s in pre])
+    out += _aim_default(pre, fname, lean_prefix)
     out += _strs(f"{lean_prefix}_loop", f"`MolGrid.{fname}`: the loop header `for <target> in <iter>`.",
                  [ast.unparse(loop.target), ast.unparse(loop.iter)])
     # environment of loop variables usable as atomic numbers
@@ -551,6 +595,7 @@ def _translate_init(tree):
     loop_def = None
     seen_loop = seen_aim = seen_super = False
     final = {}
+    needs = set()      # round 6: further instances the generated `init` needs (order / NatCast), only when the source uses them
 
     def zeros(call):
         """np.zeros(shape[, dtype=int]) -> (lean, kind)"""
@@ -578,6 +623,25 @@ def _translate_init(tree):
     for s in body:
         if seen_super:
             _fail(s, "statement after super().__init__(...)")
+        # ---- round 6: self._aim_weights = np.clip / np.maximum / np.minimum(self._aim_weights, <literals>) after the dispatch (carried, so that the
+        #      theorems about the weights see it)
+        if (seen_aim and isinstance(s, ast.Assign) and len(s.targets) == 1 and ast.unparse(s.targets[0]) == "self._aim_weights"
+                and isinstance(s.value, ast.Call) and ast.unparse(s.value.func) in ("np.clip", "np.maximum", "np.minimum") and not s.value.keywords
+                and s.value.args and ast.unparse(s.value.args[0]) == "self._aim_weights"):
+            fn = ast.unparse(s.value.func)
+
+            def lit(x):
+                if isinstance(x, ast.Constant) and type(x.value) in (int, float) and x.value >= 0 and float(x.value).is_integer():
+                    needs.add("NatCast")
+                    return f"(({int(x.value)} : Nat) : K)"
+                _fail(x, "unsupported bound (only non-negative integer-valued literals)")
+            nargs = {"np.clip": 2, "np.maximum": 1, "np.minimum": 1}[fn]
+            if len(s.value.args) != 1 + nargs:
+                _fail(s, "unsupported call")
+            needs.update({"np.clip": ("Max", "Min"), "np.maximum": ("Max",), "np.minimum": ("Min",)}[fn])
+            out.append(_comment(s))
+            out.append(f"let _aim_weights := {fn.replace('np.', 'np').replace('npc', 'npC').replace('npm', 'npM')} _aim_weights " + " ".join(lit(a) for a in s.value.args[1:]))
+            continue
         # ---- self._x = ...
         if (isinstance(s, ast.Assign) and len(s.targets) == 1 and isinstance(s.targets[0], ast.Attribute)
                 and isinstance(s.targets[0].value, ast.Name) and s.targets[0].value.id == "self"):
@@ -746,25 +810,59 @@ def _translate_init(tree):
                 for g in stmts[:-1]:
                     lines += A.guard(g)
                 last = stmts[-1]
-                if not (isinstance(last, ast.Assign) and len(last.targets) == 1 and isinstance(last.targets[0], ast.Attribute)
-                        and isinstance(last.targets[0].value, ast.Name) and last.targets[0].value.id == "self"):
+
+                def is_self_assign(x):
+                    return (isinstance(x, ast.Assign) and len(x.targets) == 1 and isinstance(x.targets[0], ast.Attribute)
+                            and isinstance(x.targets[0].value, ast.Name) and x.targets[0].value.id == "self")
+
+                def arm_value(st, kind, argname, A):
+                    """`self._aim_weights = <value>` inside an arm -> `pure …` line (round 6: also `np.ones(n)`)"""
+                    v = st.value
+                    if isinstance(v, ast.Call) and ast.unparse(v.func) == "np.ones" and len(v.args) == 1 and not v.keywords:
+                        t, k = A.expr(v.args[0])
+                        needs.add("NatCast")
+                        return f"pure (← npOnes {t if k == 'npnum' else f'(NpNum.int {t})'})"
+                    if kind == "aimCallable":
+                        if not (isinstance(v, ast.Call) and isinstance(v.func, ast.Name) and v.func.id == argname and not v.keywords
+                                and not any(isinstance(a, ast.Starred) for a in v.args)):
+                            _fail(st, "expected a call of the callable")
+                        args = [A.expr(a) for a in v.args]
+                        return f"pure ({_lname(argname)} " + " ".join(a for a, _ in args) + ")"
+                    if not (isinstance(v, ast.Name) and v.id == argname):
+                        _fail(st, "expected the array itself")
+                    return f"pure {_lname(argname)}"
+
+                if (isinstance(last, ast.If) and len(last.body) == 1 and len(last.orelse) == 1 and is_self_assign(last.body[0]) and is_self_assign(last.orelse[0])
+                        and last.body[0].targets[0].attr == last.orelse[0].targets[0].attr):
+                    # round 6: a special case inside an arm (`if len(atgrids) == 1: … else: …`) is carried, not refused
+                    tgt = last.body[0].targets[0].attr
+                    if target not in (None, tgt) or tgt != "_aim_weights" or tgt in B.selfvars:
+                        _fail(last, "branches assign different attributes")
+                    target = tgt
+                    lines.append(f"-- if {ast.unparse(last.test)}: ... else: ...")
+                    lines.append(f"if {A.compare(last.test)} then do")
+                    lines.append("  " + _comment(last.body[0]))
+                    lines.append("  " + arm_value(last.body[0], kind, argname, A))
+                    lines.append("else do")
+                    lines.append("  " + _comment(last.orelse[0]))
+                    lines.append("  " + arm_value(last.orelse[0], kind, argname, A))
+                    arms.append((ctor, _lname(argname), lines))
+                    oe = node.orelse
+                    if len(oe) == 1 and isinstance(oe[0], ast.If):
+                        node = oe[0]
+                        continue
+                    if len(oe) == 1 and isinstance(oe[0], ast.Raise):
+                        default = B.raises(oe[0])
+                        break
+                    _fail(node, "dispatch must end in `else: raise ...`")
+                if not is_self_assign(last):
                     _fail(last, "branch must end in `self._aim_weights = ...`")
                 tgt = last.targets[0].attr
                 if target not in (None, tgt) or tgt != "_aim_weights" or tgt in B.selfvars:
                     _fail(last, "branches assign different attributes")
                 target = tgt
                 lines.append(_comment(last))
-                v = last.value
-                if kind == "aimCallable":
-                    if not (isinstance(v, ast.Call) and isinstance(v.func, ast.Name) and v.func.id == argname and not v.keywords
-                            and not any(isinstance(a, ast.Starred) for a in v.args)):
-                        _fail(last, "expected a call of the callable")
-                    args = [A.expr(a) for a in v.args]
-                    lines.append(f"pure ({_lname(argname)} " + " ".join(a for a, _ in args) + ")")
-                else:
-                    if not (isinstance(v, ast.Name) and v.id == argname):
-                        _fail(last, "expected the array itself")
-                    lines.append(f"pure {_lname(argname)}")
+                lines.append(arm_value(last, kind, argname, A))
                 arms.append((ctor, _lname(argname), lines))
                 oe = node.orelse
                 if len(oe) == 1 and isinstance(oe[0], ast.If):
@@ -817,7 +915,7 @@ def _translate_init(tree):
     res = list(loop_def)
     res += ["/-- `MolGrid.__init__(self, atnums, atgrids, aim_weights, store)`, statement by statement. `zeroRow` is a row of",
             "`np.zeros((n, 3))`. -/",
-            "def init {P K : Type} [Add K] [Mul K] [NatCast K] (zeroRow : P) (atnums : List Nat)",
+            "def init {P K : Type} [Add K] [Mul K] [NatCast K]" + "".join(f" [{c} K]" for c in ("Max", "Min") if c in needs) + " (zeroRow : P) (atnums : List Nat)",
             "    (atgrids : List (AtGrid P K)) (aim_weights : AimArg P K) (store : Bool) : Py (MolGrid P K) := do"]
     res += ["  " + ln for ln in out]
     res.append("  pure { " + ", ".join(f"{k} := {final[k]}" for k in order) + " }")
